@@ -3,7 +3,7 @@ import io, os, sys
 sys.path.insert(0, os.path.dirname(__file__))
 from _common import main
 
-BOUND = 'streams of 4..70 KiB around the usual buffer sizes; data that is itself all 0x40 / all 0x00 (one-shot and streaming, block-edge lengths); every residue of bytes-already-written mod 1012 in {0,1,2,505,506,1010,1011} reached by 2 chunkings (trailer pending and trailer written for residue 0) x every next write length 0..3040 (quick: step 1 around block edges +-3, else step 97; thorough: all) ; one-shot blocker for n in 0..3100; finalise via seek(0) and close()'
+BOUND = 'blocked output of the list helper and of the writer class (8 record sets); streams of 4..70 KiB around the usual buffer sizes; data that is itself all 0x40 / all 0x00 (one-shot and streaming, block-edge lengths); every residue of bytes-already-written mod 1012 in {0,1,2,505,506,1010,1011} reached by 2 chunkings (trailer pending and trailer written for residue 0) x every next write length 0..3040 (quick: step 1 around block edges +-3, else step 97; thorough: all) ; one-shot blocker for n in 0..3100; finalise via seek(0) and close()'
 
 
 def data(n, off=0, fill=None):
@@ -46,10 +46,30 @@ def chunks_for(n, r):
 
 
 def oracle(inp):
-    if not isinstance(inp, dict) or inp.get('kind') not in ('stream','oneshot'):
+    if not isinstance(inp, dict) or inp.get('kind') not in ('stream','oneshot','client'):
         return None          # unknown input kind (model of another property's unit)
     from cardutil.mciipm import Block1014, block_1014
     kind = inp.get('kind', 'stream')
+    if kind == 'client':
+        # the library's own clients of the blocker hand back FINALISED output: list helper, writer closed / left by a with-block
+        from cardutil.mciipm import VbsWriter, vbs_list_to_bytes
+        import struct
+        recs = [data(n, 7 * i) for i, n in enumerate(inp['lens'])]
+        stream = b''.join(struct.pack('>I', len(r)) + r for r in recs) + b'\x00' * 4
+        if inp['how'] == 'helper':
+            out = vbs_list_to_bytes(recs, blocked=True)
+        else:
+            f = io.BytesIO()
+            if inp['how'] == 'with':
+                with VbsWriter(f, blocked=True) as w:
+                    w.write_many(recs)
+            else:
+                w = VbsWriter(f, blocked=True)
+                for r in recs:
+                    w.write(r)
+                w.close()
+            out = f.getvalue()
+        return check_layout(out, stream, 'blocked output of %s for records %s' % (inp['how'], inp['lens'][:6]))
     if kind == 'oneshot':
         d = data(inp['n'], fill=inp.get('fill'))
         fo = io.BytesIO()
@@ -112,6 +132,9 @@ def cases(tier, rng):
                 edges.add(e + d)
     for n in list(range(0, 3100, 1 if tier == 'thorough' else 53)) + sorted(edges):
         yield {'kind': 'oneshot', 'n': n}
+    for how in ('helper', 'with', 'close'):
+        for lens in ([], [5], [1004], [1008], [1009], [2000, 20], [300] * 9, [6000, 6000]):
+            yield {'kind': 'client', 'how': how, 'lens': lens}
     for fill in (0x40, 0x00):
         for n in (1, 2, 1011, 1012, 1013, 2023, 2024, 2025, 3036):
             yield {'kind': 'oneshot', 'n': n, 'fill': fill}
